@@ -32,17 +32,29 @@ class AssemblyManager(object):
     def assemble(self):
         modmap = self._generate_modules_map()
 
-        for elem in self.elements:
-            self._deref_citations(elem.record)
-
-        assembly = self._generate_assembly(modmap)
-
-        self._annotate_assembly(assembly)
-        self._ref_citations(assembly)
-        for elem in self.elements:
-            self._ref_citations(elem.record)
+        citations = self._save_citations()
+        try:
+            for elem in self.elements:
+                self._deref_citations(elem.record)
+            assembly = self._generate_assembly(modmap)
+            self._annotate_assembly(assembly)
+            self._ref_citations(assembly)
+        finally:
+            self._restore_citations(citations)
 
         return assembly
+
+    def _save_citations(self):
+        citations = []
+        for elem in self.elements:
+            for feature in elem.record.features:
+                if "citation" in feature.qualifiers:
+                    citations.append((feature, list(feature.qualifiers["citation"])))
+        return citations
+
+    def _restore_citations(self, citations):
+        for feature, citation in citations:
+            feature.qualifiers["citation"][:] = citation
 
     def _generate_modules_map(self):
         modmap = {}
